@@ -37,10 +37,15 @@ COMPONENTS = {
 
 # runs per tier (split over the property's profiles by share)
 TIER_RUNS = {
-    'quick': {'default': 40000},
-    'thorough': {'default': 600000},
+    'quick': {'default': 20000, 'C01': 40000, 'C02': 40000, 'C03': 40000, 'C04': 20000, 'C05': 20000,
+              'C06': 25000, 'C07': 16000, 'C08': 25000, 'C15': 25000, 'C09': 10000, 'C10': 7000,
+              'C11': 10000, 'C12': 20000, 'C13': 4500, 'C16': 20000, 'C19': 40000},
+    'thorough': {'default': 400000, 'C01': 800000, 'C02': 800000, 'C03': 800000, 'C04': 400000,
+                 'C05': 400000, 'C06': 500000, 'C07': 300000, 'C08': 500000, 'C15': 500000,
+                 'C09': 200000, 'C10': 140000, 'C11': 200000, 'C12': 400000, 'C13': 90000,
+                 'C16': 400000, 'C19': 800000},
 }
-TIER_SECS = {'quick': 75, 'thorough': 1500}
+TIER_SECS = {'quick': 100, 'thorough': 2400}
 
 
 def _signature(v):
